@@ -60,5 +60,5 @@ def interleaved_histories(r, thorough):
 
 
 def run(tier, replay=None):
-    return srvprops.run(PROP, THEOREMS, tier, replay, extra_gen=lambda r, th: interleaved_histories(r, th) + sl.kick_histories(r, th),
-                        rule_note="plus interleaved histories: a LEAVE / disconnect clean-up suspended in its modulator notification while another connection joins, leaves or re-identifies; judged by the CHANNELS-vs-MEMBERS audit; plus directed removal histories: an owner removes a member with LEAVE on_behalf, then drops / fills its own limit / the removed member re-joins up to its limit / a namesake reconnects and probes ownership; ends with the CHANNELS-vs-MEMBERS audit (members must be alive)")
+    return srvprops.run(PROP, THEOREMS, tier, replay, extra_gen=lambda r, th: interleaved_histories(r, th) + sl.kick_histories(r, th) + sl.stalled_drop_histories(r, th),
+                        rule_note="plus interleaved histories: a LEAVE / disconnect clean-up suspended in its modulator notification while another connection joins, leaves or re-identifies; judged by the CHANNELS-vs-MEMBERS audit; plus members that stop reading and vanish while the server is blocked writing to them (connection ends through the write-error path); plus directed removal histories: an owner removes a member with LEAVE on_behalf, then drops / fills its own limit / the removed member re-joins up to its limit / a namesake reconnects and probes ownership; ends with the CHANNELS-vs-MEMBERS audit (members must be alive)")
